@@ -15,6 +15,12 @@ pub struct Plan {
     pub annot: Choices,
     /// default annotation state of (var defs, params, returns)
     pub annot_default: (bool, bool, bool),
+    /// functions whose body contains a function literal always carry their parameter and return annotations (whatever the
+    /// defaults and choices say). Used by C02: an operator inside a nested function literal that mentions a still unknown
+    /// parameter of the enclosing function is checked against a *copy* of that parameter (the type checker instantiates by
+    /// copying the reachable type graph) - a known limitation that belongs to the open C07 finding, not a new one.
+    #[serde(default)]
+    pub annotate_outer_fns: bool,
     pub callform: Choices,
     pub retform: Choices,
     pub loopform: Choices,
@@ -60,6 +66,7 @@ impl Default for Plan {
         Plan {
             annot: Choices::default(),
             annot_default: (false, true, true),
+            annotate_outer_fns: false,
             callform: Choices::default(),
             retform: Choices::default(),
             loopform: Choices::default(),
@@ -279,7 +286,7 @@ impl<'a> Printer<'a> {
                 let rooted = m.rooted.get(self.file).and_then(|r| r.get(to)).copied().unwrap_or(false);
                 format!("{}.{}", module_ns(&import_path(&m.files[self.file], &m.files[to], rooted)), name)
             }
-            1 => format!("ns{}.{}", to, name),
+            1 => format!("ns{}.{}", alias_no(self.file, to, m.files.len()), name),
             2 => name,
             _ => {
                 // aliases keep the case of the first letter (types/variants are capitalised)
@@ -451,7 +458,12 @@ impl<'a> Printer<'a> {
         // (the head of an assignment target is not parenthesisable: `(f(1)).a = 2` is a syntax error)
         if c & 1 == 1 && self.plain_calls == 0 {
             self.sites.parens_added += 1;
-            format!("({})", s)
+            // now and then two pairs
+            if c & 6 == 6 {
+                format!("(({}))", s)
+            } else {
+                format!("({})", s)
+            }
         } else {
             s
         }
@@ -863,11 +875,12 @@ impl<'a> Printer<'a> {
         self.fn_depth += 1;
         let nl = if self.plan.crlf { "\r\n" } else { "\n" };
         let mut s = String::from(if def.pure { "pu" } else { "fn" });
+        let force_annot = self.plan.annotate_outer_fns && format!("{:?}", def.body).contains("Lambda(");
         for (i, pv) in def.params.iter().enumerate() {
             s.push_str(if i == 0 { " " } else { ", " });
             let ty = self.p.var(*pv).ty.clone();
             // function-typed parameters must always be annotated (an unknown type cannot be called)
-            let ann = if ty.is_fn() { true } else { self.want_annot(1) };
+            let ann = if ty.is_fn() || force_annot { true } else { self.want_annot(1) };
             if ann {
                 let tt = if ty.is_fn() { format!("({})", self.ty_text(&ty)) } else { self.ty_text(&ty) };
                 s.push_str(&format!("{}: {}", self.name(*pv), tt));
@@ -877,7 +890,7 @@ impl<'a> Printer<'a> {
         }
         let has_value = def.ret != Ty::Void;
         if has_value {
-            let ann = self.want_annot(2);
+            let ann = force_annot || self.want_annot(2);
             if ann {
                 let rt = if def.ret.is_fn() {
                     format!("({})", self.ty_text(&def.ret))
@@ -1128,6 +1141,12 @@ fn balanced_outer(s: &str) -> bool {
     depth == 0
 }
 
+/// number in the alias `ns<k>` under which file `from` imports file `to`: distinct for the targets of one file, but the
+/// same alias names different modules in different files (a namespace name is a per-file binding)
+pub fn alias_no(from: usize, to: usize, nf: usize) -> usize {
+    (from + to) % nf.max(1)
+}
+
 pub fn module_ns(import_path: &str) -> String {
     import_path.trim_matches('/').rsplit('/').next().unwrap_or("").to_string()
 }
@@ -1230,7 +1249,7 @@ pub fn print_files(p: &Program, plan: &Plan) -> PrintedFiles {
             let path = import_path(&m.files[f], &m.files[*to], rooted);
             match style {
                 0 => header.push_str(&format!("use {}\n", path)),
-                1 => header.push_str(&format!("use {} as ns{}\n", path, to)),
+                1 => header.push_str(&format!("use {} as ns{}\n", path, alias_no(f, *to, m.files.len()))),
                 2 => {
                     let list: Vec<String> = names.iter().cloned().collect();
                     if m.paren_lists && list.len() > 1 {
@@ -1254,7 +1273,7 @@ pub fn print_files(p: &Program, plan: &Plan) -> PrintedFiles {
             for to in 1..m.files.len() {
                 if !needed.contains_key(&to) && !plain.contains(&to) && m.file_of.iter().any(|x| *x == to) {
                     if lib_named(&m.files[to]) {
-                        header.push_str(&format!("use {} as ns{}\n", import_path(&m.files[0], &m.files[to], false), to));
+                        header.push_str(&format!("use {} as ns{}\n", import_path(&m.files[0], &m.files[to], false), alias_no(0, to, m.files.len())));
                     } else {
                         header.push_str(&format!("use {}\n", import_path(&m.files[0], &m.files[to], false)));
                     }
